@@ -248,10 +248,9 @@ def run(ctx):
     k1_before(ctx, "R3-commit-clears-group", where, g, tmpl, clear, "the group is closed only after _commit_write_group() ran (a failed commit keeps it for abort)")
     fn, g, where = fn_cfg(ctx, PR, "PackRepository._resume_write_group")
     hs = [n.id for n in g.nodes if n.kind == "handler" and "UnresumableWriteGroup" in norm(n.ast.type)]
-    need(where, hs, "except UnresumableWriteGroup")
     ab = calling(g, attr="_abort_write_group", recv="self")
-    ok, w = g.always_after(hs, ab)
-    ctx.check("R3-resume-aborts", where, bool(ab) and ok and g.exit not in g.reach(hs), "a failed resume aborts the freshly started group and re-raises", message="resume failure leaves a started write group behind or swallows the error", witness=g.show_path(w) if w else None)
+    ok, w = g.always_after(hs, ab) if hs else (False, None)
+    ctx.check("R3-resume-aborts", where, bool(hs) and bool(ab) and ok and g.exit not in g.reach(hs), "a failed resume aborts the freshly started group and re-raises", message="PackRepository._resume_write_group does not abort when the pack collection raises UnresumableWriteGroup (no handler around _pack_collection._resume_write_group, or the handler does not reach _abort_write_group and re-raise): packs resumed before the stale token stay registered in _resumed_packs and the aggregate indices although resume_write_group() raised — the suspended content is visible outside any write group and the next unrelated commit_write_group publishes it", witness=g.show_path(w) if w else None)
     fn, g, where = fn_cfg(ctx, PR, "PackRepository.suspend_write_group")
     clear = g.find(assigns_to("self._write_group"))
     ok, w = g.always_after([g.entry], clear, exits=[g.exit])
